@@ -1,23 +1,22 @@
-use tyme4rs::tyme::solar::{SolarTerm, SolarTime, SolarDay};
-use tyme4rs::tyme::sixtycycle::SixtyCycle;
+use std::time::Instant;
+use tyme4rs::tyme::lunar::*;
+use tyme4rs::tyme::solar::*;
 use tyme4rs::tyme::Tyme;
 fn main() {
-  let t = SolarTime::from_ymd_hms(9888, 1, 18, 7, 14, 47);
-  let ec = t.get_lunar_hour().get_eight_char();
-  for start_year in [9887isize, 9888] {
-    let end_year = 9888isize;
-    let m = ec.get_month().get_earth_branch().next(-2).get_index() as isize;
-    let mut y: isize = ec.get_year().next(-57).get_index() as isize + 1;
-    let base_year = start_year - 1;
-    if base_year > y { y += 60 * ((base_year - y) as f64 / 60.0).ceil() as isize; }
-    println!("start {} y {} m {}", start_year, y, m);
-    while y <= end_year {
-      let mut term = SolarTerm::from_index(y, 3);
-      if m * 2 > 0 { term = term.next(m * 2); }
-      let st = term.get_julian_day().get_solar_time();
-      println!("  y {} term {} {} at {}", y, term.get_year(), term, st);
-      y += 60;
-    }
-    let _: Option<(SolarDay, SixtyCycle)> = None;
-  }
+  let t = Instant::now();
+  let w = SolarDay::from_ymd(2000, 1, 1).get_solar_week(0);
+  for n in [1000isize, 10000, 100000, 400000] { let t = Instant::now(); let _ = w.next(n); println!("SolarWeek next({}) {:?}", n, t.elapsed()); }
+  let l = SolarDay::from_ymd(2000, 1, 1).get_lunar_day();
+  let lw = l.get_lunar_month().get_weeks(0)[1].clone();
+  for n in [1000isize, 10000, 100000, 300000] { let t = Instant::now(); let _ = lw.next(n); println!("LunarWeek next({}) {:?}", n, t.elapsed()); }
+  for n in [1000isize, 100000, 2000000] { let t = Instant::now(); let _ = l.next(n); println!("LunarDay next({}) {:?}", n, t.elapsed()); }
+  let sd = SolarDay::from_ymd(2000, 1, 1).get_sixty_cycle_day();
+  for n in [1000isize, 100000, 2000000] { let t = Instant::now(); let _ = sd.next(n); println!("SixtyCycleDay next({}) {:?}", n, t.elapsed()); }
+  let lh = SolarTime::from_ymd_hms(2000, 1, 1, 3, 0, 0).get_lunar_hour();
+  for n in [1000isize, 100000] { let t = Instant::now(); let _ = lh.next(n); println!("LunarHour next({}) {:?}", n, t.elapsed()); }
+  let lm = LunarMonth::from_ym(2000, 1);
+  for n in [100isize, 3000, 30000] { let t = Instant::now(); let _ = lm.next(n); println!("LunarMonth next({}) {:?}", n, t.elapsed()); }
+  let sh = SolarTime::from_ymd_hms(2000, 1, 1, 3, 0, 0).get_sixty_cycle_hour();
+  for n in [1000isize, 900000000] { let t = Instant::now(); let _ = sh.next(n); println!("SixtyCycleHour next({}) {:?}", n, t.elapsed()); }
+  println!("{:?}", t.elapsed());
 }
